@@ -127,7 +127,21 @@ def body_default_ctx(s1, s2):
     return isinstance(ref, list)
 
 
-def two_pre(sk1, sk2):
+def one_hole(sk):
+    """keep only the first hole free"""
+    out, seen = '', False
+    for ch in sk:
+        if ch == '?' and seen:
+            out += 'x'
+        else:
+            out += ch
+            seen = seen or ch == '?'
+    return out
+
+
+def two_pre(sk1, sk2, quick=True):
+    if quick:
+        sk2 = one_hole(sk2)
     return skel_pre(sk1, 's1') + skel_pre(sk2, 's2')
 
 
@@ -156,12 +170,12 @@ def conditions(tier):
     P = 's1: str, s2: str'
     for nm, a, b in PAIRS:
         for t1, t2 in ([(True, False)] if quick else [(True, False), (False, False), (True, True)]):
-            conds.append(Cond('hist_%s_%s%s' % (nm, 't' if t1 else 's', 't' if t2 else 's'), P, two_pre(a, b),
+            conds.append(Cond('hist_%s_%s%s' % (nm, 't' if t1 else 's', 't' if t2 else 's'), P, two_pre(a, b, quick),
                               'body_hist(s1, s2, %r, %r)' % (t1, t2), timeout=T, cost=2, twin=False,
                               smoke=[dict(s1=skel_fill(a, c), s2=skel_fill(b, d)) for c in 'x{}' for d in 'x}'],
-                              descr='history: %r then %r (? = any character)' % (a, b)))
+                              descr='history: %r then %r (? = any character)' % (a, one_hole(b) if quick else b)))
     n = 1 if quick else 2
-    conds.append(Cond('hist_free_%d' % n, P, ['len(s1) <= %d' % (n + 1), 'len(s2) <= %d' % n], 'body_hist(s1, s2, True, False)',
+    conds.append(Cond('hist_free_%d' % n, P, ['len(s1) <= %d' % n, 'len(s2) <= %d' % n], 'body_hist(s1, s2, True, False)',
                       timeout=T, twin=False, smoke=[dict(s1=BS + 'v', s2='{'), dict(s1='$', s2='}')]))
     conds.append(Cond('hist_three', P, two_pre(BS + 'v{?', BS + 'v{?}'), "body_hist(s1, s2, True, False, '" + BS + BS + "v{{{')",
                       timeout=T, twin=False, smoke=[dict(s1=BS + 'v{{', s2=BS + 'v{x}')]))
@@ -172,7 +186,7 @@ def conditions(tier):
                       cost=2, twin=False, smoke=[dict(s1=BS + 'k[a]b', s2=BS + 'b [a]{b}')]))
     for nm, a, b in [('d_verb', BS + 'verb|?', BS + 'verb|?|?'), ('d_item', BS + 'item[?', BS + 'item[?] ?'),
                      ('d_frac', BS + 'frac?', BS + 'frac??'), ('d_lst', BS + 'begin{lstlisting}[?', BS + 'begin{lstlisting}[?]x' + BS + 'end{lstlisting}')]:
-        conds.append(Cond('default_' + nm, P, two_pre(a, b), 'body_default_ctx(s1, s2)', timeout=T, cost=2, twin=False,
+        conds.append(Cond('default_' + nm, P, two_pre(a, b, quick), 'body_default_ctx(s1, s2)', timeout=T, cost=2, twin=False,
                           smoke=[dict(s1=skel_fill(a), s2=skel_fill(b))]))
     return conds
 
@@ -184,7 +198,7 @@ META = dict(
                'LatexContextDb.freeze, spec objects of the compact and of the default context', 'LatexWalker.parse_content'],
     bounds=dict(quick='histories of two parses (tolerant, then strict) sharing one context database and the warm standard-argument-parser '
                       'cache, over 12 pairs of skeletons exercising every standard argument type (first document typically left '
-                      'unterminated), 1-2 free characters each; all pairs of free strings of length <= 2 / <= 1; one three-call history; 4 '
+                      'unterminated), 1-2 free characters in the first document and one in the second; all pairs of free strings of length <= 1; one three-call history; 4 '
                       'pairs on the shared default context; each compared with fresh objects + emptied caches',
                 thorough='three strict/tolerant combinations per pair; free strings <= 3 / <= 2'),
     stubs=['logging disabled', 'step budget', '"fresh interpreter" = freshly built context and spec objects and an emptied '
